@@ -239,6 +239,13 @@ func (c *concReader) Read(p []byte) (int, error) {
 				return numRead, err
 			}
 			c.currWork = c.nextWork()
+			if c.currWork.buffer == nil {
+				// An error-only unit of work (e.g. the Worker's SeekRange
+				// failed because its Reader had already failed on an earlier
+				// chunk): there is nothing to copy from. The next iteration
+				// returns its error.
+				continue
+			}
 		}
 
 		// Fill p from c.currWork.
